@@ -3,6 +3,7 @@ package main
 import (
 	"encoding/json"
 	"fmt"
+	"github.com/Trendyol/go-dcp/logger"
 	"reflect"
 	"strings"
 	"time"
@@ -34,6 +35,8 @@ type BurstParams struct {
 	Mitigation bool `json:"mitigation"`
 	Hold       bool `json:"hold"`  // adversarially delay the membership subscriber of the bus
 	Tight      bool `json:"tight"` // only gap 0, sources bus then api-rebalance
+	// YieldLog: every log call of the library is a scheduling point (a logger blocks on I/O)
+	YieldLog bool `json:"yield_log"`
 }
 
 type notif struct {
@@ -64,6 +67,7 @@ func init() {
 				{Scenario: "c11_burst", Params: mustJSON(BurstParams{Membership: "dynamic", MaxN: n}), Bound: b, Shards: 8},
 				{Scenario: "c11_burst", Params: mustJSON(BurstParams{Membership: "static", MaxN: n}), Bound: b, Shards: 8},
 				{Scenario: "c11_burst", Params: mustJSON(BurstParams{Membership: "dynamic", MaxN: 1, Hold: true}), Bound: b, Shards: 2},
+				{Scenario: "c11_burst", Params: mustJSON(BurstParams{Membership: "dynamic", MaxN: 1, YieldLog: true}), Bound: 1, Shards: 8, Note: "log calls are scheduling points; immediate re-open (dynamic membership): the re-open thread against the tail of the Rebalance() call that armed it, all single deviations (bracketing of the lifecycle callbacks)"},
 				{Scenario: "c11_burst", Params: mustJSON(BurstParams{Membership: "static", MaxN: 2, Tight: true}), Bound: 1, Shards: 8, Note: "two notifications at the same instant (bus + GET /rebalance), all single deviations"},
 				{Scenario: "c02_sessions", Params: mustJSON(SessionsParams{ReadOnly: true}), Bound: 0, Shards: 2, Note: "re-open after a rebalance resumes from the checkpoints stored NOW (read-only mode: they were advanced by their owners since the process started), for vBuckets that stay in the range and for gained ones"},
 				{Scenario: "c02_sessions", Params: mustJSON(SessionsParams{}), Bound: 0, Shards: 2, Note: "the same with this member's own saves between the rebalances"},
@@ -89,6 +93,9 @@ func rangeOf(m [2]int) [2]uint16 {
 
 func burstMain(p BurstParams) {
 	resetGlobals()
+	if p.YieldLog {
+		logger.Log = yieldLogger{}
+	}
 	o := DcpOpts{}
 	o.Vbs = 4
 	o.CheckpointType = "auto"
